@@ -193,7 +193,7 @@ theorem simplify_vars_cover (g : MG Name) (e ev : Event) (hs : simplify g e = .o
           have hR' := reduceReflexive_eq _ R' hr
           subst hR'
           cases h2 : anyInconsistent (removeRepeated (splitReflexive me).2)
-              (reduceKeyed (removeRepeated (splitReflexive me).1) []) with
+              (dropNone (reduceKeyed (removeRepeated (splitReflexive me).1) [])) with
           | error err => rw [h2] at h; cases h
           | ok b2 =>
             rw [h2] at h
@@ -205,7 +205,7 @@ theorem simplify_vars_cover (g : MG Name) (e ev : Event) (hs : simplify g e = .o
               | error err => rw [ha] at h; cases h
               | ok a =>
                 rw [ha] at h
-                cases hb : popAll (reduceKeyed (removeRepeated (splitReflexive me).1) []) with
+                cases hb : popAll (dropNone (reduceKeyed (removeRepeated (splitReflexive me).1) [])) with
                 | error err => rw [hb] at h; cases h
                 | ok b =>
                   rw [hb] at h
@@ -231,8 +231,12 @@ theorem simplify_vars_cover (g : MG Name) (e ev : Event) (hs : simplify g e = .o
                     have hkey := removeRepeated_hasKeyJ _ k p.2 hin
                     obtain ⟨vals, hv⟩ := (hasKeyJ_iff _ k).1 hkey
                     have hrk : rkey k = k := by simp [rkey, hcf']
-                    obtain ⟨x, hx⟩ := popAll_hasKeyJ _ b hb k
-                      (reduceKeyed_hasKeyJ _ [] k (Or.inr ⟨(k, vals), hv, hrk⟩))
+                    obtain ⟨x, hx⟩ := popAll_hasKeyJ _ b hb k (by
+                      obtain ⟨vals', hv'⟩ := (hasKeyJ_iff _ k).1
+                        (reduceKeyed_hasKeyJ _ [] k (Or.inr ⟨(k, vals), hv, hrk⟩))
+                      obtain ⟨p', hp', hk', _⟩ := dropNone_of_mem _ (k, vals') hv'
+                      simp only at hk'
+                      exact (hasKeyJ_iff _ k).2 ⟨p'.2, by rw [← hk']; exact hp'⟩)
                     exact ⟨x, List.mem_append_right _ hx⟩
 
 end Y0.CtfTr
